@@ -71,7 +71,7 @@ var commonAssumptions = []string{
 var properties = map[string]*property{}
 
 // Frozen exemption tables for ARGS on lapack/gonum, one reason per line,
-// each confirmed by reading the routine. A stale entry fails the check.
+// each confirmed by reading the routine. A stale entry is reported as a note.
 var lapackArgs = args.Options{
 	RecvType: "Implementation",
 	Unchecked: map[string]string{
